@@ -393,7 +393,7 @@ struct Driver
         std::map<uint64_t, int> crash_status; // idx -> wait status of the worker that died in it
         std::map<uint64_t, std::string> crash_text; // idx -> first line of what the dying worker wrote to stderr
         Stats st;
-        bool wall_capped = false;
+        bool wall_capped = false, stopped_after_violations = false;
     };
 
     void run_pool(uint64_t total, int shift, uint64_t keep_hashes, BatchOut &bo, double deadline)
@@ -507,8 +507,16 @@ struct Driver
                     uint64_t nextfirst = (uint64_t)(wk.last_begin + 1);
                     bool more = false;
                     for (uint64_t i = nextfirst; i < total; ++i) if ((int)((i + (uint64_t)shift) % (uint64_t)nw) == w) { more = true; break; }
-                    if (more && bo.viol.size() + bo.crashed_idx.size() < 400) spawn(w, nextfirst);
-                    else --alive;
+                    if (more && bo.viol.size() + bo.crashed_idx.size() < 64) spawn(w, nextfirst);
+                    else
+                    {
+                        --alive;
+                        if (more && !stopping)
+                        { // enough violating items to classify: do not spend the budget on collecting hundreds more
+                            stopping = true; bo.stopped_after_violations = true;
+                            for (auto &o : ws) if (o.pid > 0 && !o.done) kill(o.pid, SIGKILL);
+                        }
+                    }
                 }
             }
         }
@@ -674,7 +682,7 @@ struct Driver
         printf("%s %s tier=%s seed=%llu items=%llu evaluations=%llu steps=%llu distinct_states~%.0f wall=%.1fs det=%llu/%llu violations=%llu known=%zu%s\n",
                exit_code == 0 ? "PASS" : (exit_code == 1 ? "FAIL" : "ERROR"), prop.c_str(), tier ? "thorough" : "quick", (unsigned long long)batch_seed,
                (unsigned long long)bo.items, (unsigned long long)bo.evals, (unsigned long long)bo.steps, bo.st.hll.estimate(), wall,
-               (unsigned long long)(compared - mismatches), (unsigned long long)compared, (unsigned long long)new_violations, known_lines.size(), bo.wall_capped ? " (wall cap hit)" : "");
+               (unsigned long long)(compared - mismatches), (unsigned long long)compared, (unsigned long long)new_violations, known_lines.size(), bo.wall_capped ? " (wall cap hit)" : bo.stopped_after_violations ? " (stopped after 64 violating items)" : "");
         return exit_code;
     }
 
